@@ -3073,6 +3073,6 @@ def compare(I, op, a, b):            # noqa: F811
     return _old_compare(I, op, a, b)
 
 
-@lib("datetime.timedelta", "datetime.datetime", "datetime.date")
+@lib("datetime.timedelta")
 def _timedelta(I, *a, **k):
     return Opaque("timedelta")
